@@ -78,17 +78,12 @@ impl CollisionTask<'_> {
             } else {
                 (self.shape_j, self.transform_j, self.shape_i, self.transform_i)
             };            
-            // Small shape is simplified to aabb that is then enlarged. Large shape is used
-            // as is (it probably has a complex shape and would result in many false positives
-            // if similarly simplified            
-            let am_aaabb = sm_shape.local_aabb().loosened(r_min);
-            let sm_abb_mesh = build_trimesh_from_aabb(am_aaabb);
-            if !parry3d::query::intersection_test(
-                sm_transform,
-                &sm_abb_mesh,
-                bg_transform,
-                bg_shape,
-            ).expect(SUPPORTED) {
+            // Small shape is simplified to aabb that is then enlarged. If this box does not
+            // overlap the bounding box of the other shape, objects are more than r_min apart.
+            // (Testing the surface of the box against the other shape would miss a shape
+            // lying wholly inside the enlarged box.)
+            let am_aaabb = sm_shape.aabb(sm_transform).loosened(r_min);
+            if !am_aaabb.intersects(&bg_shape.aabb(bg_transform)) {
                 false
             } else {
                 parry3d::query::distance(
@@ -111,6 +106,7 @@ impl CollisionTask<'_> {
 }
 
 /// Parry does not support AABB as a "proper" shape so we rewrap it as mesh
+#[allow(dead_code)]
 fn build_trimesh_from_aabb(aabb: Aabb) -> TriMesh {
     let min: Point<f32> = aabb.mins;
     let max: Point<f32> = aabb.maxs;
